@@ -86,6 +86,12 @@ CLAIMED = {
             'Theorems over the models of the three entry points (validate re-parses the text non-strictly, as the code does) '
             'for every table, string and strictness; error message texts are checked by the oracle.',
             'Blank strings are outside.', 'DESIGN.md section 4 C11'),
+    'C14': ('Coq proof (validate_symbols / the constructor report an error iff the table is ambiguous by the order-free rule, '
+            'although the code uses an order-sensitive last-writer-wins dictionary) + random tables in every entry order and in '
+            'three representations',
+            'Theorem for every table of valid symbols; representation independence is structural in the model and decided by '
+            'the oracle comparing all queries across the three representations.',
+            'Aliases with parentheses / non-text aliases are outside this property.', 'DESIGN.md section 4 C14'),
 }
 
 NOT_YET = 'check under construction in this session; see DESIGN.md section 4 for the planned theorem'
